@@ -222,6 +222,14 @@ def extra_programs():
                 "funcs": [df("U", "/g/u", []), df("M", "/g/m", [c("U")]), df("V", "/g/v", [c("M"), {"k": "load", "path": "/g/u"}]),
                           {"name": "root", "module": "main", "params": [], "body": [c("V")]}],
                 "entries": {"eval_root": {"kind": "eval", "fn": "root"}}})
+    # two functions call the same two constant-argument keeps in opposite order
+    ka = lambda path, fn, v: {"k": "keep", "path": path, "fn": fn, "args": [{"lit": v}]}
+    out.append({"id": "G/opposite_order_of_two_keeps", "key": "opposite_order_of_two_keeps", "modules": ["main"], "vars": [], "eps": [],
+                "funcs": [{"name": "A", "module": "main", "params": [["x", None]], "body": []}, {"name": "W", "module": "main", "params": [["x", None]], "body": []},
+                          {"name": "F1", "module": "main", "params": [], "body": [ka("/o/a", "A", "5"), ka("/o/w", "W", "3")]},
+                          {"name": "F2", "module": "main", "params": [], "body": [ka("/o/w", "W", "3"), ka("/o/a", "A", "5")]},
+                          {"name": "root", "module": "main", "params": [], "body": [c("F1"), c("F2")]}],
+                "entries": {"eval_root": {"kind": "eval", "fn": "root"}}})
     from . import c09
     for pl in c09.PLACEMENTS:
         for pr in ("datafn", "keepcall"):
